@@ -61,12 +61,9 @@ CLAIMS = {
         "note": "Name and whitespace productions only. The type / typedef / method / error productions are NOT decided by the solver: on arbitrary bytes they exceed memory at 3 bytes, and the mutation family (corpus text with one arbitrary byte) never produced a verdict (DESIGN 12.10); its bodies run in the native selftest only, which is not a solver verdict. Changes confined to those productions are missed (seeds C13-A, C13-B, C13-D). Member order across kinds and layout independence of whole interfaces are not claimed.",
     },
     "C17": {
-        "text": "Bounded model checking on the small-constant build: inbound, the real read_from_socket fed a frame of symbolic size 1..=MAX+2*STEP (or never terminated) in fixed chunkings is accepted "
-                "iff it ends within the limit, refused with BufferOverflow exactly when the limit is reached, and the buffer never exceeds the limit (also asserted in every C01 step instance); "
-                "outbound, enqueue/send refuse exactly the messages that do not fit under the limit, leave position and earlier bytes untouched and write nothing. The relations between the "
-                "production constants that this argument uses are checked on the production build.",
-        "design_ref": "DESIGN.md section 3 (C17)",
-        "note": "Size = bytes on the wire including the terminator. Production values (256 / 100 MiB) themselves are out of reach; the small build shares the code and the checked constant relations.",
+        "text": "Bounded model checking on the small-constant build (STEP=8, MAX=32). Inbound, as inductive steps: the real read_from_socket from every concrete (buffer length, read cursor) state at and next to the limit with one symbolic transport step (kind, chunk length, bytes): the buffer never exceeds the limit, BufferOverflow is returned exactly when the buffer is full at the limit, it grows by exactly one step when full below the limit, and every shorter chunk is accepted. Outbound: enqueue from the concrete states around the limit refuses exactly the messages that do not fit under it, leaves position and earlier bytes untouched and contributes nothing to a later write. The relations between the production constants that the argument uses (MAX a multiple of STEP, MAX >= 2*STEP, STEP >= 2) are checked on the production build.",
+        "design_ref": "DESIGN.md section 3 (C17) and 13.4",
+        "note": "Size = bytes on the wire including the terminator. The multi-read form from the fresh state (a frame of symbolic size 1..=MAX+2*STEP in fixed chunks, limit_in_ch8) needs more than 12 GB and is reported INCONCLUSIVE in the thorough tier; whole frames are covered by induction over the step family (prose). Production values (256 / 100 MiB) themselves are out of reach; the small build shares the code and the checked constant relations - a change that only misbehaves when MAX/STEP is not a power of two is still caught because growth is compared with the one-step model (seed C17-C).",
     },
     "C18": {
         "text": "Bounded model checking of the real SelectAll::poll (helper level): for n<=4 futures, every readiness "
